@@ -1,6 +1,8 @@
 import SJ.Props.C01
 import SJ.Props.C02
 import SJ.Proofs.CanonM
+import SJ.Proofs.NumberAp
+import SJ.Proofs.TypedSameAp
 /-!
 # C20 — arbitrary_precision keeps every number literal verbatim
 
@@ -79,5 +81,135 @@ def envAp : Env := { cfg := { ap := true }, src := .str, tgt := .value }
 example : parseTop envAp [0x2d, 0x30] = .ok (.num (.lit [0x2d, 0x30])) := rfl
 example : parseTop envAp [0x31, 0x2e, 0x35, 0x30, 0x65, 0x2b, 0x30, 0x30, 0x37] =
     .ok (.num (.lit [0x31, 0x2e, 0x35, 0x30, 0x65, 0x2b, 0x30, 0x30, 0x37])) := rfl
+
+/-! ## the accessors of the string-backed `Number` (`Model.NumberAp`) -/
+
+section accessors
+open SJ.Spec.Decimal SJ.Spec.NumberAcc SJ.Model.NumberAp SJ.Proofs.NumberAp
+open SJ.Proofs.NumLinkParser (litOf parse_bytes)
+
+/-- **C20 (accessors).** For every stored literal — every text `p.bytes` of the RFC 8259 number grammar,
+    any length and spelling — the accessors of the `arbitrary_precision` `Number`, computed as the crate
+    computes them (`self.n.parse::<i64/u64/i128/u128/f64>()`, `Model.NumberAp`), are functions of the
+    `NumLit` `l` that the specification's own reader takes off the bytes (first conjunct):
+
+    * `as_i64 / as_u64 / as_i128 / as_u128` = `accInt w l`: the literal's exact integer value when the
+      literal has no fraction and no exponent and the value lies in the type's range, `None` otherwise
+      (the unsigned ones answer `None` to every literal with a minus sign, `-0` included;
+      `"-0".parse::<i64>()` is `Ok(0)`);
+    * `is_i64` / `is_u64` are true exactly when the matching `as_*` is `Some`;
+    * `as_f64` = `Spec.Ieee.roundNE64` of the literal's exact rational value `±D·10^e`
+      (`Spec.Decimal.NumLit.exact`) — the nearest finite binary64, ties to even — and `None` exactly when
+      that rounding overflows;
+    * `is_f64` is true exactly when the literal has a fraction or an exponent and `as_f64` is `Some`.
+
+    Trusted: that `str::parse::<f64>` is correctly rounded and overflows to `±inf` (std's documented
+    contract, modelled by `roundNE64` + `getD inf`), and the `from_str_radix` grammar of the integer
+    parsers; both are recorded in the trusted base and compared with the crate by op `acc` on every
+    generated literal. -/
+theorem c20_accessors (p : NumParts) (hwf : p.WF = true) :
+    NumLit.parse p.bytes = some (litOf p) ∧
+    asI64 p.bytes = accInt .i64 (litOf p) ∧ asU64 p.bytes = accInt .u64 (litOf p) ∧
+    asI128 p.bytes = accInt .i128 (litOf p) ∧ asU128 p.bytes = accInt .u128 (litOf p) ∧
+    isI64 p.bytes = (accInt .i64 (litOf p)).isSome ∧ isU64 p.bytes = (accInt .u64 (litOf p)).isSome ∧
+    asF64 p.bytes = nearestF64 (litOf p) ∧
+    isF64 p.bytes = (!isIntLit (litOf p) && (nearestF64 (litOf p)).isSome) := by
+  refine ⟨parse_bytes p hwf, parseInt_bytes .i64 p hwf, parseInt_bytes .u64 p hwf, parseInt_bytes .i128 p hwf,
+    parseInt_bytes .u128 p hwf, ?_, ?_, asF64_bytes p hwf, isF64_bytes p hwf⟩
+  · unfold isI64 asI64; rw [parseInt_bytes .i64 p hwf]
+  · unfold isU64 asU64; rw [parseInt_bytes .u64 p hwf]
+
+/-- the same about the `Number` the parser stores (`c20_verbatim`): what `from_str::<Value>(lit)` /
+    `Number::from_str(lit)` holds answers its accessors from the literal's exact value -/
+theorem c20_parsed_accessors (env : Env) (henv : env.tgt = .value) (hap : env.cfg.ap = true)
+    (p : NumParts) (hwf : p.WF = true) :
+    ∃ n, parseTop env p.bytes = .ok (.num n) ∧
+      numAsI64 true n = accInt .i64 (litOf p) ∧ numAsU64 true n = accInt .u64 (litOf p) ∧
+      numAsI128 true n = accInt .i128 (litOf p) ∧ numAsU128 true n = accInt .u128 (litOf p) ∧
+      numAsF64 true n = nearestF64 (litOf p) := by
+  refine ⟨.lit p.bytes, c20_verbatim env henv hap p hwf, ?_⟩
+  obtain ⟨_, h1, h2, h3, h4, _, _, h5, _⟩ := c20_accessors p hwf
+  exact ⟨h1, h2, h3, h4, h5⟩
+
+/-- `as_f32` (crate-private, used by `PartialEq<f32>`): ONE rounding of the exact value to binary32 -/
+theorem c20_as_f32 (p : NumParts) (hwf : p.WF = true) : asF32 p.bytes = nearestF32 (litOf p) :=
+  asF32_bytes p hwf
+
+/-- non-vacuity (Bool tests, evaluated by the kernel): `-0`, `18446744073709551615`, `0.1`, `1e400`, `1E2`, `-1e-400` -/
+example : (asI64 [0x2d, 0x30] == some 0 && asU64 [0x2d, 0x30] == none && asI128 [0x2d, 0x30] == some 0 &&
+    asU128 [0x2d, 0x30] == none) = true := by decide +kernel
+example : (asU64 [0x31,0x38,0x34,0x34,0x36,0x37,0x34,0x34,0x30,0x37,0x33,0x37,0x30,0x39,0x35,0x35,0x31,0x36,0x31,0x35]
+    == some 18446744073709551615 &&
+  asI64 [0x31,0x38,0x34,0x34,0x36,0x37,0x34,0x34,0x30,0x37,0x33,0x37,0x30,0x39,0x35,0x35,0x31,0x36,0x31,0x35] == none) = true := by
+  decide +kernel
+example : (asF64 [0x30, 0x2e, 0x31] == some 0x3fb999999999999a && isF64 [0x30, 0x2e, 0x31]) = true := by decide +kernel
+example : (asF64 [0x31, 0x65, 0x34, 0x30, 0x30] == none && !isF64 [0x31, 0x65, 0x34, 0x30, 0x30] &&
+    asI64 [0x31, 0x65, 0x34, 0x30, 0x30] == none) = true := by decide +kernel
+example : (asF64 [0x31, 0x45, 0x32] == some 0x4059000000000000 && asI64 [0x31, 0x45, 0x32] == none) = true := by decide +kernel
+example : (asF64 [0x2d, 0x31, 0x65, 0x2d, 0x34, 0x30, 0x30] == some 0x8000000000000000) = true := by decide +kernel
+/-- never a stored literal, but accepted by `str::parse`: `+1`, `007`, `1.`, `.5`, `inf` (filtered by `is_finite`) -/
+example : (asI64 [0x2b, 0x31] == some 1 && asU64 [0x30, 0x30, 0x37] == some 7 &&
+    asF64 [0x31, 0x2e] == some 0x3ff0000000000000 && asF64 [0x2e, 0x35] == some 0x3fe0000000000000 &&
+    parseF64 [0x69, 0x6e, 0x66] == some 0x7ff0000000000000 && asF64 [0x69, 0x6e, 0x66] == none &&
+    parseF64 [0x2e] == none && parseF64 [0x31, 0x65] == none) = true := by decide +kernel
+
+end accessors
+
+/-! ## typed deserialisation does not depend on the feature -/
+
+section typedSame
+open SJ.Model.Typed SJ.Proofs.TypedAp
+
+/-- **C20 (typed deserialisation is the same with and without the feature).** `Model.Typed.deTypedTop` is the
+    transcription of `from_str / from_slice / from_reader::<T>` followed by `end()`. For every build `env`
+    (source, `float_roundtrip`, recursion limit, also in the failing-reader mode of C13), either value `a` of
+    `arbitrary_precision`, every schema without a `Value` target inside (`hasAny s = false`: bool, the twelve
+    integer widths, f64, f32, char, strings, byte buffers, option, unit, newtype, seq, tuple, maps with every key
+    kind, structs incl. skipped unknown fields, enums, `IgnoredAny`) and EVERY input: the two builds return the
+    same outcome — or both fail. They can fail differently in exactly one way: when the input holds a value of the
+    wrong kind for the target, `peek_invalid_type` parses the offending scalar as `deserialize_any` would, and an
+    out-of-range number there is `number out of range` without the feature and `invalid type` with it
+    (`parse_any_number` keeps the text).
+
+    The model consults `cfg.ap` only inside the byte-step machine it uses as a sub-parser; the proof shows that
+    `parse_str` never reaches a number (`runPfx_str`), skipped content never looks at the feature
+    (`step1_ignored`), and everything else is the same code (`SJ/Proofs/TypedSameAp.lean`). A `Value` target is
+    excluded because there the feature changes the representation of numbers by design (`c20_verbatim`). -/
+theorem c20_typed_same (env : Model.Typed.Env) (a : Bool) (s : Schema) (hs : hasAny s = false) (bs : Bytes) :
+    deTypedTop (withAp env a) s bs = deTypedTop env s bs ∨
+      (topValue (deTypedTop (withAp env a) s bs) = none ∧ topValue (deTypedTop env s bs) = none) :=
+  rel_top env a s hs bs
+
+/-- in particular the VALUE is the same: `from_str::<T>` succeeds in one build iff in the other, with the same result -/
+theorem c20_typed_same_value (env : Model.Typed.Env) (a : Bool) (s : Schema) (hs : hasAny s = false) (bs : Bytes) :
+    topValue (deTypedTop (withAp env a) s bs) = topValue (deTypedTop env s bs) := by
+  rcases c20_typed_same env a s hs bs with h | ⟨h1, h2⟩
+  · rw [h]
+  · rw [h1, h2]
+
+/-- **numbers into numeric targets: identical outcomes**, error code and position included. For the twelve
+    integer widths, `f64` and `f32`, on every input whose first non-whitespace byte is a digit or `-` (every number
+    literal, every malformed one), the two builds run the very same code: `deserialize_number` /
+    `do_deserialize_i128/u128` have no `cfg(feature = "arbitrary_precision")` arm. -/
+theorem c20_typed_number_identical (env : Model.Typed.Env) (a : Bool) (s : Schema) (hs : isNumeric s = true) (bs : Bytes)
+    (h : ∀ b r p, SJ.Model.Stream.skipWs bs 0 = (b :: r, p) → isNumStart b = true) :
+    deTypedTop (withAp env a) s bs = deTypedTop env s bs :=
+  top_number_eq env a s hs bs h
+
+/-- the exclusion is necessary: into a `Value` the literal `1.0` is the text with the feature, a float without -/
+example : (match deTypedTop (withAp {} true) .any [0x31, 0x2e, 0x30], deTypedTop (withAp {} false) .any [0x31, 0x2e, 0x30] with
+    | .ok (.any (.num (.lit _))), .ok (.any (.num (.float _))) => true
+    | _, _ => false) = true := by decide +kernel
+/-- the one way the failures differ: `1e999` where a `bool` is expected -/
+example : (match deTypedTop (withAp {} true) .bool [0x31, 0x65, 0x39, 0x39, 0x39], deTypedTop (withAp {} false) .bool [0x31, 0x65, 0x39, 0x39, 0x39] with
+    | .data _, .err .NumberOutOfRange _ => true
+    | _, _ => false) = true := by decide +kernel
+/-- non-vacuity: `{"k":[1,-2.5e1]}` into `Map<String, (u8, f64)>`, same value in both builds -/
+example : (match deTypedTop (withAp {} true) (.map .string (.tuple [.int .u8, .f64]))
+      [0x7b,0x22,0x6b,0x22,0x3a,0x5b,0x31,0x2c,0x2d,0x32,0x2e,0x35,0x65,0x31,0x5d,0x7d] with
+    | .ok (.map [(.str [0x6b], .seq [.int 1, .f64 0xc039000000000000])]) => true
+    | _ => false) = true := by decide +kernel
+
+end typedSame
 
 end SJ.Props.C20
